@@ -4,7 +4,7 @@
    idempotently, or only renumbers generated symbols; they do not prove that the real compiler
    has no other state (that is what the generated inventories and the differential replay
    check). *)
-From Coq Require Import ZArith List Bool Lia String.
+From Coq Require Import ZArith List Bool Lia.
 From V.C11 Require Import ModelOrder GenInventory ModelEngine ModelInventory ProofsOrder ProofsEngine.
 Import ListNotations. Open Scope Z_scope.
 
@@ -104,8 +104,8 @@ Definition s_init : Sess := mkSess pool 7 [] [] [] [] [] 0 0 0 false [42].
 Definition cone6 (id : Z) : Prop := In id [0; 1; 6].
 Example cone6_closed : closed cone6 s_init.
 Proof.
-  intros id [H|[H|[H|[]]]]; subst; eexists; (split; [reflexivity|]); split;
-    try reflexivity; repeat constructor; unfold cone6; simpl; auto.
+  intros id [H|[H|[H|[]]]]; subst; eexists; (split; [reflexivity|]); (split; [|reflexivity]);
+    repeat (apply Forall_cons; [unfold cone6; simpl; tauto|]); apply Forall_nil.
 Qed.
 Definition hist : list op := [OCheck 5; OCompile 3; OCompile 6; OPyCall 1; OCompile 6].
 (* the history really leaves things behind: a failed check with a non-empty worklist, advanced
